@@ -209,8 +209,9 @@ def ob_md_conditional(shape, cvars, lo):
                 exact_timeout_ms=120000, tv_sampler=_simplex_sampler(n, max(lo, 1e-3)))
 
 
-def ob_md_getitem(shape):
-    """__getitem__ with a tuple index is the row-major entry; int index is the serial entry"""
+def ob_md_getitem(shape, eps=None):
+    """__getitem__ with a tuple index is the row-major entry of the distribution's (adjusted) probabilities; int index is the serial
+    entry; with a non-default zero threshold eps the entries below it are zeroed and the rest renormalised first"""
     shape = tuple(shape)
     n = prod(shape)
 
@@ -218,19 +219,33 @@ def ob_md_getitem(shape):
         from quara.objects.multinomial_distribution import MultinomialDistribution as MD
         from quara.objects.prob_dist import ProbDist
         ps = _tensor(I, shape)
-        md = MD(ps.copy(), shape)
+        md = MD(ps.copy(), shape, eps_zero=eps) if eps else MD(ps.copy(), shape)
         idx = tuple(I[f"i{k}"] for k in range(len(shape)))
         rm = 0
         for k in range(len(shape)):
             rm = rm * shape[k] + idx[k]
-        cells = list(flat(ps))
-        out = [Eq("md[(i,j,..)] == ps[row-major]", md[idx], select(cells, rm), 0.0)]
-        out.append(Eq("md[s] == ps[s]", md[I["s"]], select(cells, I["s"]), 0.0))
-        pd = ProbDist(ps.copy(), shape)
-        out.append(Eq("ProbDist[(i,j,..)] == ps[row-major]", pd[idx], select(cells, rm), 0.0))
+        if eps:
+            # reference for the documented adjustment: entries below eps become 0, the others are divided by what is left
+            orig = list(flat(ps))
+            kept = [ite(SBool.of(x < eps), 0.0, x) for x in orig]
+            tot = 0
+            for x in kept:
+                tot = tot + x
+            cells = [x / tot for x in kept]
+            tol = 1e-9
+        else:
+            cells = list(flat(ps))
+            tol = 0.0
+        out = [Eq("md[(i,j,..)] == (adjusted) ps[row-major]", md[idx], select(cells, rm), tol)]
+        out.append(Eq("md[s] == (adjusted) ps[s]", md[I["s"]], select(cells, I["s"]), tol))
+        out.append(Eq("md[(i,j,..)] == md.ps[row-major] (tuple access reads the distribution's own probabilities)", md[idx], select(list(flat(md.ps)), rm), 0.0))
+        if not eps:
+            pd = ProbDist(ps.copy(), shape)
+            out.append(Eq("ProbDist[(i,j,..)] == ps[row-major]", pd[idx], select(cells, rm), 0.0))
         return out
-    return FnOb(_ps_inputs(n, 1e-6) + [(f"i{k}", "int", 0, shape[k] - 1) for k in range(len(shape))] + [("s", "int", 0, n - 1)], run,
-                assume=lambda I: _sum1(I, n, 1e-6), max_paths=400)
+    lo = 0.0 if eps else 1e-6
+    return FnOb(_ps_inputs(n, lo) + [(f"i{k}", "int", 0, shape[k] - 1) for k in range(len(shape))] + [("s", "int", 0, n - 1)], run,
+                assume=lambda I: _sum1(I, n, lo), max_paths=400, expect_nonlinear=bool(eps), eager_ite=bool(eps))
 
 
 def ob_validate(n, validate_sum):
@@ -279,11 +294,12 @@ def obligations(tier):
     for s in tiers(tier, [(2, 2)], [(2, 2), (2, 3)]):
         for rem in tiers(tier, ([0], [1, 0]), ([0], [1], [1, 0])):
             out += specs("C16.md.marginal", [{"shape": list(s), "remain": rem, "lo": 0.0}], ob_md_marginal, 4)
-    for s, cv in tiers(tier, [((2, 2), [0]), ((2, 3), [1]), ((3, 2), [0]), ((2, 2, 2), [2, 0]), ((2, 2, 2), [0, 1])],
+    for s, cv in tiers(tier, [((2, 2), [0]), ((2, 3), [1]), ((3, 2), [0]), ((2, 2, 2), [2, 0]), ((2, 2, 2), [0, 1]), ((2, 1, 3), [0]), ((2, 1), [0]), ((1, 2), [1])],
                        [((2, 2), [0]), ((2, 3), [1]), ((3, 2), [0]), ((2, 2, 2), [0, 2]), ((2, 2, 2), [2, 0]), ((2, 2, 2), [1]), ((2, 3, 2), [1]),
                         ((2, 3, 2), [0, 1]), ((2, 3, 2), [1, 0]), ((2, 3, 2), [2, 1])]):
         out += specs("C16.md.conditional", [{"shape": list(s), "cvars": cv, "lo": 1e-3}], ob_md_conditional, 5)
     out += specs("C16.md.getitem", [{"shape": list(s)} for s in tiers(tier, [(2, 3), (2, 2, 2)], [(2, 3), (3, 4), (2, 2, 2), (2, 3, 2), (2, 2, 2, 2)])], ob_md_getitem, 2)
+    out += specs("C16.md.getitem", [{"shape": list(s), "eps": 0.05} for s in tiers(tier, [(2, 2)], [(2, 2), (2, 3)])], ob_md_getitem, 4)
     out += specs("C16.validate", [{"n": n, "validate_sum": v} for n in tiers(tier, [2, 3], [2, 3, 4, 5]) for v in (True, False)], ob_validate, 2)
     return out
 
